@@ -34,8 +34,17 @@ class FragmentSpreadsMustNotFormCycles(June2018ReleaseValidationRule):
     RULE_NUMBER = "5.5.2.2"
 
     def _validate_fragment(self, fragments, fragment, spreaded):
-        for selected in fragment.selection_set.selections:
-            if isinstance(selected, FragmentSpreadNode):
+        self._validate_selection_set(
+            fragments, fragment.selection_set, spreaded
+        )
+
+    def _validate_selection_set(self, fragments, selection_set, spreaded):
+        for selected in selection_set.selections:
+            if getattr(selected, "selection_set", None):
+                self._validate_selection_set(
+                    fragments, selected.selection_set, spreaded
+                )
+            elif isinstance(selected, FragmentSpreadNode):
                 if selected.name.value not in spreaded:
                     fragment = find_nodes_by_name(
                         fragments, selected.name.value
